@@ -195,23 +195,34 @@ def restrict(secs, keep):
 
 # ----------------------------------------------------------------------------------------------- running
 def run_chunk(ctx, exe, chunk, timeout, depth=0):
-    """Run one chunk; if the process dies or times out (fewer answers than lines; output is block-buffered, so the
-    culprit is unknown) bisect until the offending single line is isolated.  A single line that times out is retried
-    once with a longer limit and then reported as TIMEOUT (inconclusive, never a violation)."""
-    rc, out, err = ctx.run_lines([exe], chunk, timeout=timeout)
-    if len(out) == len(chunk):
-        return out
-    if len(chunk) == 1:
-        if rc == 124:
-            rc, out, err = ctx.run_lines([exe], chunk, timeout=timeout * 3)
-            if len(out) == 1:
-                return out
-            if rc == 124:
-                return ["TIMEOUT"]
-        last = err.strip().splitlines()
-        return ["CRASH rc=%s %s" % (rc, " / ".join(last[:3])[:300] if last else "")]
-    mid = len(chunk) // 2
-    return run_chunk(ctx, exe, chunk[:mid], timeout, depth + 1) + run_chunk(ctx, exe, chunk[mid:], timeout, depth + 1)
+    """Run one chunk.  The harness flushes after every line and exits after printing HANG, so when there are fewer
+    answers than lines the offending line is known: it is re-run alone with a 4x deadline (a slow machine is not a
+    violation), recorded as HANG/CRASH if it fails again, and the rest of the chunk is run afterwards.  A chunk-level
+    timeout of the orchestrator is inconclusive (TIMEOUT), never a violation."""
+    out = []
+    rest = list(chunk)
+    while rest:
+        rc, o, err = ctx.run_lines([exe], rest, timeout=timeout)
+        if len(o) >= len(rest):
+            out += o[:len(rest)]
+            break
+        hung = bool(o) and o[-1] == "HANG"
+        good = o[:-1] if hung else o
+        out += good
+        culprit = rest[len(good)]
+        env = dict(os.environ, C10_DEADLINE_MS="80000")
+        rc2, o2, err2 = ctx.run_lines([exe], [culprit], timeout=300, env=env)
+        if len(o2) == 1 and o2[0] != "HANG":
+            out.append(o2[0])
+        elif hung or (o2 and o2[0] == "HANG"):
+            out.append("HANG")
+        elif rc == 124 and rc2 == 124:
+            out.append("TIMEOUT")
+        else:
+            last = (err2 or err).strip().splitlines()
+            out.append("CRASH rc=%s %s" % (rc2, " / ".join(last[:3])[:300] if last else ""))
+        rest = rest[len(good) + 1:]
+    return out
 
 
 def run_sharded(ctx, exe, lines, shards=12, timeout=900):
@@ -237,6 +248,10 @@ FIELD_RE = re.compile(r"(ev|tr|q|err|depth)=([^;#]*)")
 
 
 def first_diff_field(impl, model):
+    if impl.startswith("HANG"):
+        return "hang"
+    if impl.startswith(("CRASH", "PANIC")):
+        return "crash"
     a, b = impl.split(" # "), model.split(" # ")
     if len(a) != len(b):
         return "shape"
@@ -259,6 +274,8 @@ def independent_checks(line, impl):
     probs = []
     if impl == "TIMEOUT":
         return []
+    if impl.startswith("HANG"):
+        return ["hang"]
     if impl.startswith(("PANIC", "CRASH", "SETUP-ERROR", "PARSE-ERROR")):
         return ["harness:" + impl.split(" ")[0]]
     seen = {}
@@ -337,12 +354,14 @@ def load_corpus():
 def shrink(ctx, harness, model, secs, want_field):
     def fails(keep):
         line = render(restrict(secs, keep))
-        rc1, o1, _ = ctx.run_lines([harness], [line], timeout=120)
+        rc1, o1, _ = ctx.run_lines([harness], [line], timeout=120, env=dict(os.environ, C10_DEADLINE_MS="4000"))
         if model:
             rc2, o2, _ = ctx.run_lines([model], [line], timeout=120)
             if not o1 or not o2 or o2[0] in ("PARSE-ERROR", "OOF"):
                 return False
-            return o1[0] != o2[0]
+            if want_field == "hang":
+                return o1[0].startswith("HANG")
+            return o1[0] != o2[0] and not o1[0].startswith("HANG")
         return bool(o1) and want_field in independent_checks(line, o1[0])
     items = act_positions(secs)
     try:
@@ -399,7 +418,7 @@ def main(ctx):
     # ------------------------------------------------------------------ cases: corpus first, then generated
     corpus = load_corpus()
     cases = [(l, None) for l in corpus]
-    n_prog = 4000 if quick else 60000
+    n_prog = 8000 if quick else 60000
     g = Gen(ctx.rng, "std")
     gb = Gen(ctx.rng, "big")
     for i in range(n_prog):
@@ -448,6 +467,8 @@ def main(ctx):
                    "; ".join(lines[i] for i, p in indep if "tracker" in p)[:600])
     ctx.obligation("inv:no-harness-crash", "correspondence", not any(p[0].startswith("harness:") for _, p in indep),
                    "; ".join("%s -> %s" % (lines[i], impl[i][:200]) for i, p in indep if p[0].startswith("harness:"))[:900])
+    ctx.obligation("inv:every-program-terminates(model terminates; per-case deadline 20 s, retried with 80 s)", "correspondence",
+                   not any("hang" in p for _, p in indep), "; ".join(lines[i] for i, p in indep if "hang" in p)[:900])
 
     # ------------------------------------------------------------------ failing inputs: shrink, report
     reported = {}
@@ -465,12 +486,21 @@ def main(ctx):
         if secs is not None:
             small = shrink(ctx, harness, model, secs, field)
             line = render(small)
-        rc1, o1, _ = ctx.run_lines([harness], [line], timeout=120)
-        o2 = [None]
-        if model:
-            _, o2, _ = ctx.run_lines([model], [line], timeout=120)
-        obs = o1[0] if o1 else "CRASH"
-        exp = o2[0] if o2 else None
+        def both(l):
+            _, a, _ = ctx.run_lines([harness], [l], timeout=400)
+            b = [None]
+            if model:
+                _, b, _ = ctx.run_lines([model], [l], timeout=120)
+            return (a[0] if a else "CRASH"), (b[0] if b else None)
+        obs, exp = both(line)
+        if line != lines[i] and obs == exp and not independent_checks(line, obs):
+            line = lines[i]                 # the shrunk program does not reproduce: report the original one
+            obs, exp = both(line)
+        if obs == exp and not independent_checks(line, obs):
+            # not reproducible in isolation (e.g. fallout of another line's crash): not a failing input
+            ctx.stats["unreproducible_mismatches"] = ctx.stats.get("unreproducible_mismatches", 0) + 1
+            per_class[field] -= 1
+            continue
         field2 = first_diff_field(obs, exp) if exp else field
         if field2 == "none":
             field2 = field
